@@ -92,6 +92,16 @@ func newRichDoc(c *fw.Case) *richDoc {
 		}
 		row["arr"] = arr
 		row["obj"] = map[string]any{"k": float64(c.Intn(5)), "w": gen.Pick(c.R, []any{"p", "q"})}
+		// arrays of scalars with a duplicate that is followed by a different value
+		tags := []any{"red", "red", "blue", "green"}
+		if c.Chance(0.5) {
+			tags = make([]any, c.Intn(5))
+			for i := range tags {
+				tags[i] = gen.Pick(c.R, []any{"a", "b", 1.0, "a"})
+			}
+		}
+		row["tags"] = tags
+		row["obj"].(map[string]any)["tags"] = []any{1.0, 1.0, 2.0, 3.0}
 	}
 	u := gen.RandTable(c.R, gen.TableSpec{Name: "u1", MaxRows: 4, NumCols: 1, StrCols: 1, StrStyle: gen.Plain, ColPrefix: "u"})
 	for _, row := range u.Rows {
@@ -289,6 +299,16 @@ var richForms = []richForm{
 	}},
 	{"plain.wrapped-path", false, false, func(c *fw.Case, d *richDoc, vf string) string {
 		return "SELECT k, w FROM `t1.obj` WHERE k >= 1"
+	}},
+	{"plain.topfn", false, false, func(c *fw.Case, d *richDoc, vf string) string {
+		// top-level selector functions over arrays that live in the document
+		return gen.Pick(c.R, []string{"SELECT rid, `distinct=>tags` AS t FROM t1", "SELECT rid FROM t1 WHERE `distinct=>tags` IS NOT NULL", "SELECT rid, `distinct=>tags[(0:3)]` AS t FROM t1",
+			"SELECT rid, `mix=>arr` AS m, `distinct=>tags` AS t FROM t1", "SELECT rid, FIRST(`distinct=>tags`) AS f, LAST(`distinct=>tags`) AS l FROM t1", "SELECT rid, `distinct=>obj.tags` AS t FROM t1"})
+	}},
+	{"plain.join-unaliased", false, true, func(c *fw.Case, d *richDoc, vf string) string {
+		// outer joins whose preserved side is read straight from the document, without an alias
+		return gen.Pick(c.R, []string{"SELECT * FROM t1 LEFT JOIN u1 y ON n1 = y.un1", "SELECT * FROM t1 x RIGHT JOIN u1 ON x.n1 = un1", "SELECT * FROM t1 LEFT JOIN u1 y ON n1 >= y.un1",
+			"SELECT * FROM t1 x RIGHT JOIN u1 ON x.n1 < un1", "SELECT * FROM t1 LEFT JOIN u1 y ON n1 = y.un1 AND y.us1 = 'zz'", "SELECT * FROM u1 LEFT JOIN t1 x ON un1 = x.n1"})
 	}},
 }
 
